@@ -82,7 +82,7 @@ func harnessC24Middleware() {
 	s := &Server{cfg: ServerConfig{TokenHash: verif_nondet_string(2)}}
 	next := &c24Next{}
 	mw := s.requireAuth(next)
-	path := verif_nondet_string(verif_choose(11))
+	path := verif_nondet_string(verif_choose(c24PathMax + 1))
 	r, tok := c24Request(path)
 	w := &c24Writer{}
 	mw.ServeHTTP(w, r)
